@@ -1087,12 +1087,15 @@ func ruleNodeOwnership(c *Ctx, rule string) {
 
 // ---- O. no process-wide mutable state ---------------------------------------------------------------------------
 
-func ruleNoGlobalState(c *Ctx, rule string) {
+func ruleNoGlobalState(c *Ctx, rule string, pkgs ...string) {
 	c.Robust(rule)
+	if len(pkgs) == 0 {
+		pkgs = []string{"storage", "engine"}
+	}
 	c.Rule(rule, "databases share nothing in memory: package-level variables of storage and engine are written only by their declarations and init functions. A cache or counter kept in a package-level variable is shared by every database opened in the process")
 	w := c.W
 	n := 0
-	for _, pk := range []string{"storage", "engine"} {
+	for _, pk := range pkgs {
 		p := w.Pkgs[pk]
 		for _, name := range w.SortedFuncNames() {
 			f := w.Funcs[name]
@@ -1101,6 +1104,19 @@ func ruleNoGlobalState(c *Ctx, rule string) {
 			}
 			ast.Inspect(f.Decl.Body, func(x ast.Node) bool {
 				var lhs []ast.Expr
+				// a mutating method of a package-level synchronised container (sync.Map, sync.Pool …) is a write too
+				if call, ok := x.(*ast.CallExpr); ok {
+					if sel, ok := ast.Unparen(call.Fun).(*ast.SelectorExpr); ok {
+						switch sel.Sel.Name {
+						case "Store", "LoadOrStore", "LoadAndDelete", "Delete", "Swap", "CompareAndSwap", "Put", "Add":
+							if id, ok := ast.Unparen(sel.X).(*ast.Ident); ok {
+								if v, ok := f.ObjOf(id).(*types.Var); ok && v.Pkg() != nil && v.Parent() == v.Pkg().Scope() && pkgKey(v.Pkg().Path()) != "" {
+									lhs = []ast.Expr{sel.X}
+								}
+							}
+						}
+					}
+				}
 				switch y := x.(type) {
 				case *ast.AssignStmt:
 					if y.Tok == token.DEFINE {
